@@ -129,8 +129,12 @@ func c13Compare(tr state.Tracker, v *c13View) []c13Mismatch {
 				if m.NoExternalMsg != want.N || m.Key != want.Key || m.Limit != want.Limit {
 					add("chan-modes", "%s: tracked modes n=%v key=%q limit=%d, told (324/MODE) n=%v key=%q limit=%d", cn, m.NoExternalMsg, m.Key, m.Limit, want.N, want.Key, want.Limit)
 				}
-				if m.Private || m.Secret || m.ProtectedTopic || m.Moderated || m.InviteOnly || m.OperOnly || m.SSLOnly || m.Registered || m.AllSSL {
-					add("chan-modes", "%s: tracked modes %s contain flags the server never set", cn, m.String())
+				// the flags every channel of this network has (told in the 324 reply), and no others
+				f := c13Style.Flags324
+				has := func(l string) bool { return strings.Contains(f, l) }
+				if m.Private != has("p") || m.Secret != has("s") || m.ProtectedTopic != has("t") || m.Moderated != has("m") || m.InviteOnly != has("i") ||
+					m.OperOnly != has("O") || m.SSLOnly != has("z") || m.Registered != has("r") || m.AllSSL != has("Z") {
+					add("chan-modes", "%s: tracked flags %s, the 324 reply said +%s", cn, m.String(), f)
 				}
 			}
 		}
